@@ -329,7 +329,18 @@ func (vm *VirtualMachine) eval(ctx context.Context) error {
 		case op.LoadFast:
 			vm.push(vm.activeFrame.Locals()[vm.fetch()])
 		case op.LoadGlobal:
-			vm.push(vm.activeCode.Globals[vm.fetch()])
+			idx := vm.fetch()
+			obj := vm.activeCode.Globals[idx]
+			if obj == nil {
+				// e.g. code compiled with the name of a global that this VM
+				// was not given
+				name := "?"
+				if names := vm.activeCode.Code.GlobalNames(); int(idx) < len(names) {
+					name = names[idx]
+				}
+				return errz.EvalErrorf("eval error: global %q has no value", name)
+			}
+			vm.push(obj)
 		case op.LoadFree:
 			idx := vm.fetch()
 			freeVars := vm.activeFrame.fn.FreeVars()
